@@ -251,6 +251,7 @@ def cases():
     tys = types()
     cid = 0
     for t in tys:
+        t["opaque"] = any(f["decl"] == OPAQUE[0] for v in t["variants"] for f in v["fields"])
         P = [a[1] for a in t["args"]]
         for vi, v in enumerate(t["variants"]):
             shapes = [f["build"](P) for f in v["fields"]]
@@ -278,7 +279,7 @@ def cases():
             out.append({
                 "id": cid, "name": "%s#%d" % (t["name"], vi), "k": k, "keep": -1 if keep is None else keep,
                 "rs": val, "ty": full_ty, "coq": "%s %s" % (coq_tdesc(t), coqv), "tdesc": coq_tdesc(t), "tvalue": coqv,
-                "typedef": rust_typedef(t).strip(),
+                "typedef": rust_typedef(t).strip(), "opaque": t["opaque"], "type_name": t["name"],
             })
             cid += 1
     return out, tys
@@ -302,14 +303,23 @@ fn note_user_drop() {}
 
 def gen_rust(cs, tys):
     parts = [RS_HEADER]
+    # Types with a field that does not implement Trace (legal only because the field or its
+    # variant is ignored) sit behind the default feature `opaque`: if the macro under test stops
+    # honouring `ignore` they no longer compile, and the checker can still build and run the rest.
+    gate = '#[cfg(feature = "opaque")]\n'
     for t in tys:
-        parts.append(rust_typedef(t))
+        src = rust_typedef(t)
+        if t["opaque"]:
+            src = gate + src.replace("\nimpl", "\n" + gate + "impl")
+        parts.append(src)
         parts.append("\n")
     for c in cs:
-        parts.append("// %s\nfn c%d() {\n    run_case(%d, %d, %d, |l: &[Cc<Leaf>]| -> %s { let _ = l; %s });\n}\n" % (
-            c["name"], c["id"], c["id"], c["k"], c["keep"], c["ty"], c["rs"]))
+        parts.append("// %s\n%sfn c%d() {\n    run_case(%d, %d, %d, |l: &[Cc<Leaf>]| -> %s { let _ = l; %s });\n}\n" % (
+            c["name"], gate if c["opaque"] else "", c["id"], c["id"], c["k"], c["keep"], c["ty"], c["rs"]))
     parts.append("\npub fn run_all() {\n")
     for c in cs:
+        if c["opaque"]:
+            parts.append('    #[cfg(feature = "opaque")]\n')
         parts.append("    c%d();\n" % c["id"])
     parts.append("}\n")
     return "".join(parts)
